@@ -35,11 +35,14 @@ def identifiers(L):
     return out
 
 
-def buckets(idents, style, size):
-    """Greedy bucketing: converted names pairwise distinct inside an enum."""
+def buckets(idents, style, size, fold=False):
+    """Greedy bucketing: converted names pairwise distinct inside an enum (after ASCII folding when
+    the enum is going to be case-insensitive)."""
     out = []
     for ident in idents:
         name = model.convert_case(ident, style)
+        if fold:
+            name = model.fold_ascii(name)
         placed = False
         for b in out:
             if len(b["ids"]) < size and name not in b["names"] and ident not in b["raw"]:
@@ -111,6 +114,20 @@ def check(run):
             specs.append(EnumSpec(name="E%d" % k, variants=vs, serialize_all=style,
                                   derives=["VariantNames", "Display", "AsRefStr", "IntoStaticStr", "EnumString", "EnumMessage"]))
             k += 1
+        # the same style under ascii_case_insensitive (enum level / variant level): parse side must use the same renamed identifier
+        ci_pool = list(DICT) + [i for i in ids if len(i) <= (3 if thorough else 2)]
+        for mode in ("enum", "variant"):
+            for b in buckets(ci_pool, style, 40, fold=True):
+                vs = [Variant(ident=i) for i in b]
+                if mode == "variant":
+                    for j, v in enumerate(vs):
+                        v.aci = [True, None, False][j % 3]
+                        v.aci_bare = j % 2 == 0
+                sp = EnumSpec(name="E%d" % k, variants=vs, serialize_all=style, aci=(mode == "enum"),
+                              derives=["VariantNames", "Display", "AsRefStr", "IntoStaticStr", "EnumString", "EnumMessage"])
+                if not model.overlaps(sp):
+                    specs.append(sp)
+                    k += 1
     units = [shards.Unit("u_" + s.name.lower(), glue(s), meta={"style": s.serialize_all, "enum_src": s.render()[:1500]}, sig="style=%s" % s.serialize_all)
              for s in specs if not model.overlaps(s)]
     run.rule = RULE
